@@ -485,3 +485,52 @@ func c07State(c *eng.Ctx) {
 	}
 	c.Check("R5", cu, "sums stored as the state's status", cu.Pos(), stored, "the new sums must replace Status.LimitItemStatuses of the state condition passed in (and returned)")
 }
+
+
+// c07ReportOrdering records, under the given rule id, the obligations "every nil-error return of
+// UpdateRateLimitConditionStatus passes Save(report) → calculateUpstreamCondition → Save(state)
+// with both errors nil". Used by C18 (reclaimed capacity becomes visible only through this
+// recomputation).
+func c07ReportOrdering(c *eng.Ctx, rule string) {
+	up := c.MustMethod(pkgLimiter, "rateLimiter", "UpdateRateLimitConditionStatus")
+	if up == nil {
+		return
+	}
+	saves := eng.CallsTo(up, "("+tLimitStore+").Save")
+	var s1, s2, cu ssa.CallInstruction
+	for _, ci := range eng.CallsTo(up, fnCalcUpState) {
+		cu = ci
+	}
+	for _, s := range saves {
+		a := eng.Args(s)
+		if a[1] == ssa.Value(up.Params[2]) {
+			s1 = s
+		} else if cu != nil && c.Slicer().DerivesFrom(a[1], func(v ssa.Value) bool { return v == eng.ResultValue(cu) }) {
+			s2 = s
+		}
+	}
+	if s1 == nil || s2 == nil || cu == nil {
+		c.Fail(rule, up, "save → recompute → save", up.Pos(), "Save(report), calculateUpstreamCondition and Save(state) not all found")
+		return
+	}
+	n := 0
+	eng.Instrs(up, func(ins ssa.Instruction) {
+		r, ok := ins.(*ssa.Return)
+		if !ok || len(r.Results) != 2 || r.Block() == up.Recover {
+			return
+		}
+		res := eng.ReturnResults(r)
+		if !eng.IsNilConst(res[1]) {
+			return
+		}
+		n++
+		is := func(x ssa.CallInstruction) func(ssa.Instruction) bool {
+			return func(i ssa.Instruction) bool { return i == x.(ssa.Instruction) }
+		}
+		order := eng.AlwaysBefore(up, r, is(s2)) && eng.AlwaysBefore(up, s2.(ssa.Instruction), is(cu)) && eng.AlwaysBefore(up, cu.(ssa.Instruction), is(s1))
+		c.Check(rule, up, fmt.Sprintf("acknowledged report#%d ⇒ saved, sum recomputed, state saved", n), r.Pos(), order,
+			"a report is acknowledged on a path that skips saving it or recomputing the allocated sum (e.g. an \"unchanged report\" shortcut): the sum on record stays stale, so capacity freed by the cleanup of a dead instance is never handed to the survivors")
+	})
+	c.Check(rule, up, "reports are acknowledged", up.Pos(), n >= 1, "no successful return found")
+	c.Check(rule, up, "single success return shape", up.Pos(), n >= 1, "")
+}
